@@ -223,6 +223,10 @@ static void String_Rem(var self, var obj) {
   struct C_Str* c = instance(obj, C_Str);
   if (c and c->c_str) {
     char* pos = strstr(String_C_Str(self), c->c_str(obj));
+    if (pos is NULL) {
+      throw(ValueError, "String %$ not in String!", obj);
+      return;
+    }
     size_t count = strlen(pos) - strlen(c->c_str(obj)) + 1;
     memmove((char*)pos, pos + strlen(c->c_str(obj)), count);
   }
